@@ -106,6 +106,16 @@ theorem findMarker_drop_none {l : Bytes} (k : Nat) (h : findMarker l = none) :
   rw [findMarker_eq_none] at *
   intro j; rw [markerAt_drop]; exact h _
 
+theorem markerAt_take2 {l : Bytes} {s : Nat} (h : MarkerAt l s) :
+    (l.drop s).take 2 = [0xaa, 0x55] := by
+  have hlt := markerAt_lt h
+  have h1 := h.1
+  have h2 := h.2
+  rw [List.getElem?_eq_getElem (by omega)] at h1 h2
+  rw [List.drop_eq_getElem_cons (by omega), List.drop_eq_getElem_cons (i := s + 1) (by omega)]
+  simp only [Option.some.injEq] at h1 h2
+  simp [h1, h2]
+
 /-! ### fuel-free semantics of the loop -/
 
 /-- the `while True:` loop without fuel -/
@@ -114,11 +124,12 @@ def run (b : Bytes) : Bytes × List Bytes :=
   | none => ((if b.getLast? = some 0xaa then [0xaa] else []), [])
   | some s =>
     if h : s + 20 > b.length then (b.drop s, [])
-    else
+    else if windowOk ((b.drop s).take 20) = true then
       let r := run (b.drop (s + 20))
       (r.1, (b.drop s).take 20 :: r.2)
+    else run (b.drop (s + 2))
 termination_by b.length
-decreasing_by simp only [List.length_drop]; omega
+decreasing_by all_goals (simp only [List.length_drop]; omega)
 
 theorem run_none {b : Bytes} (h : findMarker b = none) :
     run b = ((if b.getLast? = some 0xaa then [0xaa] else []), []) := by
@@ -128,11 +139,18 @@ theorem run_short {b : Bytes} {s : Nat} (h : findMarker b = some s) (hl : b.leng
     run b = (b.drop s, []) := by
   rw [run, h]; simp [hl]
 
-theorem run_cut {b : Bytes} {s : Nat} (h : findMarker b = some s) (hl : s + 20 ≤ b.length) :
+theorem run_cut {b : Bytes} {s : Nat} (h : findMarker b = some s) (hl : s + 20 ≤ b.length)
+    (hw : windowOk ((b.drop s).take 20) = true) :
     run b = ((run (b.drop (s + 20))).1, (b.drop s).take 20 :: (run (b.drop (s + 20))).2) := by
-  rw [run, h]; simp [show ¬ (b.length < s + 20) by omega]
+  rw [run, h]; simp [show ¬ (b.length < s + 20) by omega, hw]
 
-theorem loop_eq_run (fuel : Nat) (b : Bytes) (acc : List Bytes) (h : b.length < 20 * fuel) :
+theorem run_skip {b : Bytes} {s : Nat} (h : findMarker b = some s) (hl : s + 20 ≤ b.length)
+    (hw : ¬ windowOk ((b.drop s).take 20) = true) :
+    run b = run (b.drop (s + 2)) := by
+  rw [run, h]; simp [show ¬ (b.length < s + 20) by omega, hw]
+
+/-- every iteration consumes at least two bytes, so half the length (+1) is enough fuel -/
+theorem loop_eq_run (fuel : Nat) (b : Bytes) (acc : List Bytes) (h : b.length < 2 * fuel) :
     loop fuel b acc = ((run b).1, acc.reverse ++ (run b).2) := by
   induction fuel generalizing b acc with
   | zero => omega
@@ -144,8 +162,11 @@ theorem loop_eq_run (fuel : Nat) (b : Bytes) (acc : List Bytes) (h : b.length < 
       simp only
       by_cases hl : s + 20 > b.length
       · rw [if_pos hl, run_short hf (by omega)]; simp
-      · rw [if_neg hl, run_cut hf (by omega), ih _ _ (by simp only [List.length_drop]; omega)]
-        simp
+      · rw [if_neg hl]
+        by_cases hw : windowOk ((b.drop s).take 20) = true
+        · rw [if_pos hw, run_cut hf (by omega) hw, ih _ _ (by simp only [List.length_drop]; omega)]
+          simp
+        · rw [if_neg hw, run_skip hf (by omega) hw, ih _ _ (by simp only [List.length_drop]; omega)]
 
 theorem feed_eq_run (buf data : Bytes) : feed buf data = run (buf ++ data) := by
   unfold feed
@@ -157,7 +178,10 @@ theorem feed_eq_run (buf data : Bytes) : feed buf data = run (buf ++ data) := by
 theorem run_induct {P : Bytes → Prop}
     (none : ∀ b, findMarker b = none → P b)
     (short : ∀ b s, findMarker b = some s → b.length < s + 20 → P b)
-    (cut : ∀ b s, findMarker b = some s → s + 20 ≤ b.length → P (b.drop (s + 20)) → P b) :
+    (cut : ∀ b s, findMarker b = some s → s + 20 ≤ b.length →
+      windowOk ((b.drop s).take 20) = true → P (b.drop (s + 20)) → P b)
+    (skip : ∀ b s, findMarker b = some s → s + 20 ≤ b.length →
+      ¬ windowOk ((b.drop s).take 20) = true → P (b.drop (s + 2)) → P b) :
     ∀ b, P b := by
   intro b
   induction hn : b.length using Nat.strongRecOn generalizing b with
@@ -167,7 +191,11 @@ theorem run_induct {P : Bytes → Prop}
     | some s =>
       by_cases hl : b.length < s + 20
       · exact short b s hf hl
-      · exact cut b s hf (by omega) (ih _ (by subst hn; simp only [List.length_drop]; omega) _ rfl)
+      · by_cases hw : windowOk ((b.drop s).take 20) = true
+        · exact cut b s hf (by omega) hw
+            (ih _ (by subst hn; simp only [List.length_drop]; omega) _ rfl)
+        · exact skip b s hf (by omega) hw
+            (ih _ (by subst hn; simp only [List.length_drop]; omega) _ rfl)
 
 theorem run_nil : run [] = ([], []) := by
   rw [run_none (by rfl)]; rfl
@@ -186,20 +214,28 @@ theorem run_drop {b : Bytes} {k : Nat} (h : ∀ j < k, ¬ MarkerAt b j) (hk : k 
       rcases Nat.lt_or_ge s k with h' | h'
       · exact absurd (findMarker_eq_some.1 hf).1 (h s h')
       · exact h'
+    have hwin : ((b.drop k).drop (s - k)).take 20 = (b.drop s).take 20 := by
+      rw [List.drop_drop, show k + (s - k) = s by omega]
     by_cases hl : b.length < s + 20
     · rw [run_short hf hl, run_short hd (by simp only [List.length_drop]; omega), List.drop_drop,
         show k + (s - k) = s by omega]
-    · rw [run_cut hf (by omega), run_cut hd (by simp only [List.length_drop]; omega),
-        List.drop_drop, List.drop_drop, show k + (s - k) = s by omega,
-        show k + (s - k + 20) = s + 20 by omega]
+    · by_cases hw : windowOk ((b.drop s).take 20) = true
+      · rw [run_cut hf (by omega) hw,
+          run_cut hd (by simp only [List.length_drop]; omega) (by rw [hwin]; exact hw),
+          List.drop_drop, List.drop_drop, show k + (s - k) = s by omega,
+          show k + (s - k + 20) = s + 20 by omega]
+      · rw [run_skip hf (by omega) hw,
+          run_skip hd (by simp only [List.length_drop]; omega) (by rw [hwin]; exact hw),
+          List.drop_drop, show k + (s - k + 2) = s + 2 by omega]
 
-/-! ### bounded buffering, normal buffers -/
+/-! ### bounded buffering, normal buffers, only valid windows -/
 
 theorem run_fst_length (b : Bytes) : (run b).1.length ≤ 19 := by
   induction b using run_induct with
   | none b hf => rw [run_none hf]; split <;> simp
   | short b s hf hl => rw [run_short hf hl]; simp only [List.length_drop]; omega
-  | cut b s hf hl ih => rw [run_cut hf hl]; exact ih
+  | cut b s hf hl hw ih => rw [run_cut hf hl hw]; exact ih
+  | skip b s hf hl hw ih => rw [run_skip hf hl hw]; exact ih
 
 theorem run_normal (b : Bytes) : run (run b).1 = ((run b).1, []) := by
   induction b using run_induct with
@@ -213,7 +249,20 @@ theorem run_normal (b : Bytes) : run (run b).1 = ((run b).1, []) := by
     have hd : findMarker (b.drop s) = some 0 := by
       rw [findMarker_drop (findMarker_eq_some.1 hf).2, hf]; simp
     rw [run_short hd (by simp only [List.length_drop]; omega)]; simp
-  | cut b s hf hl ih => rw [run_cut hf hl]; exact ih
+  | cut b s hf hl hw ih => rw [run_cut hf hl hw]; exact ih
+  | skip b s hf hl hw ih => rw [run_skip hf hl hw]; exact ih
+
+theorem run_only_valid (b : Bytes) : ∀ w ∈ (run b).2, windowOk w = true ∧ w.length = 20 := by
+  induction b using run_induct with
+  | none b hf => rw [run_none hf]; simp
+  | short b s hf hl => rw [run_short hf hl]; simp
+  | cut b s hf hl hw ih =>
+    rw [run_cut hf hl hw]
+    intro w hwm
+    rcases List.mem_cons.1 hwm with rfl | hwm
+    · exact ⟨hw, by simp only [List.length_take, List.length_drop]; omega⟩
+    · exact ih w hwm
+  | skip b s hf hl hw ih => rw [run_skip hf hl hw]; exact ih
 
 /-! ### segmentation independence -/
 
@@ -268,11 +317,19 @@ theorem run_append (x y : Bytes) :
       exact hs.2 j hj) (by len_omega)
     rw [← this, List.drop_append_of_le_length (by omega)]
     simp
-  | cut x s hf hl ih =>
-    rw [run_cut (findMarker_append_some y hf) (by len_omega), run_cut hf hl,
-      List.drop_append_of_le_length (by omega), List.drop_append_of_le_length (by omega),
-      List.take_append_of_le_length (by simp only [List.length_drop]; omega), ih]
+  | cut x s hf hl hw ih =>
+    have hwin : ((x ++ y).drop s).take 20 = (x.drop s).take 20 := by
+      rw [List.drop_append_of_le_length (by omega),
+        List.take_append_of_le_length (by simp only [List.length_drop]; omega)]
+    rw [run_cut (findMarker_append_some y hf) (by len_omega) (by rw [hwin]; exact hw),
+      run_cut hf hl hw, hwin, List.drop_append_of_le_length (by omega), ih]
     simp
+  | skip x s hf hl hw ih =>
+    have hwin : ((x ++ y).drop s).take 20 = (x.drop s).take 20 := by
+      rw [List.drop_append_of_le_length (by omega),
+        List.take_append_of_le_length (by simp only [List.length_drop]; omega)]
+    rw [run_skip (findMarker_append_some y hf) (by len_omega) (by rw [hwin]; exact hw),
+      run_skip hf hl hw, List.drop_append_of_le_length (by omega), ih]
 
 theorem feedAll_cons (buf d : Bytes) (ds : List Bytes) :
     feedAll buf (d :: ds)
@@ -289,16 +346,18 @@ theorem feedAll_eq_run (buf : Bytes) (reads : List Bytes) (h : run buf = (buf, [
 
 /-! ### packets -/
 
-/-- a well-framed packet (same content as `Framed` in `Props/C20.lean`) -/
+/-- a valid packet (same content as `Valid` in `Props/C20.lean`) -/
 structure IsPacket (p : Bytes) : Prop where
   len : p.length = 20
   b0 : p[0]? = some 0xaa
   b1 : p[1]? = some 0x55
   inner : findMarker (p.drop 1) = none
+  sum : windowOk p = true
 
 theorem isPacket_of {p : Bytes} (len : p.length = 20) (b0 : p.getD 0 0 = 0xaa)
-    (b1 : p.getD 1 0 = 0x55) (inner : findMarker (p.drop 1) = none) : IsPacket p := by
-  refine ⟨len, ?_, ?_, inner⟩
+    (b1 : p.getD 1 0 = 0x55) (inner : findMarker (p.drop 1) = none) (sum : windowOk p = true) :
+    IsPacket p := by
+  refine ⟨len, ?_, ?_, inner, sum⟩
   · match p, len with
     | a :: _, _ => simp at b0; simp [b0]
   · match p, len with
@@ -310,13 +369,36 @@ theorem IsPacket.markerAt_zero {p : Bytes} (hp : IsPacket p) (rest : Bytes) :
   · rw [List.getElem?_append_left (by have := hp.len; omega)]; exact hp.b0
   · rw [List.getElem?_append_left (by have := hp.len; omega)]; exact hp.b1
 
+/-- the marker of a packet that follows anything -/
+theorem IsPacket.markerAt_after {p : Bytes} (hp : IsPacket p) (n rest : Bytes) :
+    MarkerAt (n ++ (p ++ rest)) n.length := by
+  have := hp.markerAt_zero rest
+  constructor
+  · rw [List.getElem?_append_right (by omega), Nat.sub_self]; exact this.1
+  · rw [List.getElem?_append_right (by omega), show n.length + 1 - n.length = 1 by omega]
+    exact this.2
+
+/-- a marker that starts before a packet lies entirely before it (it cannot straddle the boundary: the
+packet starts with `AA`, not `55`) -/
+theorem IsPacket.marker_before {p : Bytes} (hp : IsPacket p) {n rest : Bytes} {s : Nat}
+    (hm : MarkerAt (n ++ (p ++ rest)) s) (hs : s < n.length) : s + 2 ≤ n.length := by
+  rcases Nat.lt_or_ge (s + 1) n.length with h | h
+  · omega
+  · have heq : s + 1 = n.length := by omega
+    have h1 := hm.2
+    have h2 := (hp.markerAt_after n rest).1
+    rw [heq, h2] at h1
+    exact absurd h1 (by decide)
+
 theorem run_packet_append {p : Bytes} (hp : IsPacket p) (rest : Bytes) :
     run (p ++ rest) = ((run rest).1, p :: (run rest).2) := by
   have hf : findMarker (p ++ rest) = some 0 :=
     findMarker_eq_some.2 ⟨hp.markerAt_zero rest, fun j hj => by omega⟩
-  rw [run_cut hf (by have := hp.len; simp; omega)]
-  simp only [Nat.zero_add, List.drop_zero]
-  rw [List.drop_left' hp.len, List.take_left' hp.len]
+  have hwin : ((p ++ rest).drop 0).take 20 = p := by
+    rw [List.drop_zero, List.take_left' hp.len]
+  rw [run_cut hf (by have := hp.len; simp; omega) (by rw [hwin]; exact hp.sum), hwin]
+  simp only [Nat.zero_add]
+  rw [List.drop_left' hp.len]
 
 theorem run_packets_append {ps : List Bytes} (hp : ∀ p ∈ ps, IsPacket p) (t : Bytes) :
     run (ps.flatten ++ t) = ((run t).1, ps ++ (run t).2) := by
@@ -326,6 +408,11 @@ theorem run_packets_append {ps : List Bytes} (hp : ∀ p ∈ ps, IsPacket p) (t 
     rw [List.flatten_cons, List.append_assoc, run_packet_append (hp p (by simp)),
       ih (fun q hq => hp q (by simp [hq]))]
     simp
+
+theorem run_packets {ps : List Bytes} (hp : ∀ p ∈ ps, IsPacket p) : (run ps.flatten).2 = ps := by
+  have := run_packets_append hp []
+  simp only [List.append_nil, run_nil] at this
+  rw [this]
 
 /-- marker-free noise in front of something that does not start with `55` is skipped -/
 theorem run_noise_append {n rest : Bytes} (hn : findMarker n = none)
@@ -374,13 +461,14 @@ theorem run_noise_packets {n : Bytes} {ps : List Bytes} (hn : findMarker n = non
   | cons p ps =>
     have h1 := hp p (by simp)
     rw [List.flatten_cons, run_noise_append hn (h1.head_ne _).1 (h1.head_ne _).2,
-      run_packet_append h1]
-    have := run_packets_append (ps := ps) (fun q hq => hp q (by simp [hq])) []
-    simp only [List.append_nil, run_nil] at this
-    rw [this]
+      ← List.flatten_cons, run_packets hp]
 
 /-! ### resynchronisation -/
 
+/-- after arbitrary noise the run of packets is delivered from the second packet on at the latest:
+a window that fails its checksum only skips its marker (which lies entirely inside the noise); a window
+that passes swallows 20 bytes, i.e. ends inside the first packet at the latest, and what is left of that
+packet contains no marker. -/
 theorem run_resync (ps : List Bytes) (hp : ∀ p ∈ ps, IsPacket p) (noise : Bytes) :
     ∃ pre, (run (noise ++ ps.flatten)).2 = pre ++ ps.tail ∨
            (run (noise ++ ps.flatten)).2 = pre ++ ps := by
@@ -394,12 +482,7 @@ theorem run_resync (ps : List Bytes) (hp : ∀ p ∈ ps, IsPacket p) (noise : By
     have hps' : ∀ q ∈ ps', IsPacket q := fun q hq => hp q (by simp [hq])
     rw [List.flatten_cons]
     -- there is a marker at the start of the first packet
-    have hm : MarkerAt (noise ++ (p ++ ps'.flatten)) noise.length := by
-      have := h1.markerAt_zero ps'.flatten
-      constructor
-      · rw [List.getElem?_append_right (by omega), Nat.sub_self]; exact this.1
-      · rw [List.getElem?_append_right (by omega), show noise.length + 1 - noise.length = 1 by omega]
-        exact this.2
+    have hm := h1.markerAt_after noise ps'.flatten
     have hblen : (noise ++ (p ++ ps'.flatten)).length = noise.length + 20 + ps'.flatten.length := by
       simp [h1.len]; omega
     cases hf : findMarker (noise ++ (p ++ ps'.flatten)) with
@@ -415,34 +498,89 @@ theorem run_resync (ps : List Bytes) (hp : ∀ p ∈ ps, IsPacket p) (noise : By
         subst hseq
         refine ⟨[], Or.inr ?_⟩
         have := run_drop (b := noise ++ (p ++ ps'.flatten)) (k := noise.length) hs.2 (by omega)
-        rw [← this, List.drop_left' rfl, ← List.flatten_cons]
-        have := run_packets_append (ps := p :: ps') hp []
-        simp only [List.append_nil, run_nil] at this
-        rw [this]; simp
+        rw [← this, List.drop_left' rfl, ← List.flatten_cons, run_packets hp]; simp
       · have hslt : s < noise.length := by omega
-        rw [run_cut hf (by omega)]
-        by_cases hin : s + 20 ≤ noise.length
-        · -- the window ends inside the noise: recurse
-          rw [List.drop_append_of_le_length hin]
+        have hs2 := h1.marker_before hs.1 hslt
+        by_cases hw : windowOk (((noise ++ (p ++ ps'.flatten)).drop s).take 20) = true
+        · rw [run_cut hf (by omega) hw]
+          by_cases hin : s + 20 ≤ noise.length
+          · -- the window ends inside the noise: recurse
+            rw [List.drop_append_of_le_length hin]
+            obtain ⟨pre, hpre⟩ := ih _ (by simp only [List.length_drop]; omega)
+              (noise.drop (s + 20)) rfl
+            rw [List.flatten_cons] at hpre
+            refine ⟨(((noise ++ (p ++ ps'.flatten)).drop s).take 20) :: pre, ?_⟩
+            rcases hpre with hpre | hpre
+            · left; rw [hpre]; simp
+            · right; rw [hpre]; simp
+          · -- the window ends inside the first packet: the rest of it is marker-free noise
+            refine ⟨[((noise ++ (p ++ ps'.flatten)).drop s).take 20], Or.inl ?_⟩
+            have hk : s + 20 - noise.length ≤ p.length := by have := h1.len; omega
+            rw [List.drop_append, List.drop_eq_nil_of_le (by omega), List.nil_append,
+              List.drop_append_of_le_length hk]
+            have hfree : findMarker (p.drop (s + 20 - noise.length)) = none := by
+              have := findMarker_drop_none (s + 20 - noise.length - 1) h1.inner
+              rw [List.drop_drop, show 1 + (s + 20 - noise.length - 1) = s + 20 - noise.length by omega]
+                at this
+              exact this
+            rw [run_noise_packets hfree hps']
+            simp
+        · -- the window fails its checksum: only the marker is skipped, still inside the noise
+          rw [run_skip hf (by omega) hw, List.drop_append_of_le_length hs2]
           obtain ⟨pre, hpre⟩ := ih _ (by simp only [List.length_drop]; omega)
-            (noise.drop (s + 20)) rfl
+            (noise.drop (s + 2)) rfl
           rw [List.flatten_cons] at hpre
-          refine ⟨(((noise ++ (p ++ ps'.flatten)).drop s).take 20) :: pre, ?_⟩
-          rcases hpre with hpre | hpre
-          · left; rw [hpre]; simp
-          · right; rw [hpre]; simp
-        · -- the window ends inside the first packet: the rest of it is marker-free noise
-          refine ⟨[((noise ++ (p ++ ps'.flatten)).drop s).take 20], Or.inl ?_⟩
-          have hk : s + 20 - noise.length ≤ p.length := by have := h1.len; omega
-          rw [List.drop_append, List.drop_eq_nil_of_le (by omega), List.nil_append,
-            List.drop_append_of_le_length hk]
-          have hfree : findMarker (p.drop (s + 20 - noise.length)) = none := by
-            have := findMarker_drop_none (s + 20 - noise.length - 1) h1.inner
-            rw [List.drop_drop, show 1 + (s + 20 - noise.length - 1) = s + 20 - noise.length by omega]
-              at this
-            exact this
-          rw [run_noise_packets hfree hps']
-          simp
+          exact ⟨pre, hpre⟩
+
+/-- a false packet starts at position `k` of the stream (same content as `falsePacketAt` in
+`Props/C20.lean`) -/
+def FalseAt (s : Bytes) (k : Nat) : Prop :=
+  (s.drop k).take 2 = [0xaa, 0x55] ∧ 20 ≤ (s.drop k).length ∧ windowOk ((s.drop k).take 20) = true
+
+/-- if no window that starts in the noise passes the checksum, nothing is lost and nothing is invented -/
+theorem run_resync_none (ps : List Bytes) (hp : ∀ p ∈ ps, IsPacket p) (noise : Bytes)
+    (hnf : ∀ k, k < noise.length → ¬ FalseAt (noise ++ ps.flatten) k) :
+    (run (noise ++ ps.flatten)).2 = ps := by
+  induction hlen : noise.length using Nat.strongRecOn generalizing noise with
+  | _ N ih =>
+  subst hlen
+  cases hf : findMarker (noise ++ ps.flatten) with
+  | none =>
+    cases ps with
+    | nil => rw [run_none hf]
+    | cons p ps' =>
+      rw [List.flatten_cons] at hf
+      exact absurd ((hp p (by simp)).markerAt_after noise ps'.flatten) (findMarker_eq_none.1 hf _)
+  | some s =>
+    have hs := findMarker_eq_some.1 hf
+    have hslt := markerAt_lt hs.1
+    by_cases hsn : s < noise.length
+    · have hs2 : s + 2 ≤ noise.length := by
+        cases ps with
+        | nil => simp at hslt; omega
+        | cons p ps' =>
+          rw [List.flatten_cons] at hs
+          exact (hp p (by simp)).marker_before hs.1 hsn
+      by_cases hl : (noise ++ ps.flatten).length < s + 20
+      · cases ps with
+        | nil => rw [run_short hf hl]
+        | cons p ps' =>
+          have := (hp p (by simp)).len
+          simp only [List.flatten_cons, List.length_append] at hl
+          omega
+      · by_cases hw : windowOk (((noise ++ ps.flatten).drop s).take 20) = true
+        · exact absurd ⟨markerAt_take2 hs.1, by simp only [List.length_drop]; omega, hw⟩ (hnf s hsn)
+        · rw [run_skip hf (by omega) hw, List.drop_append_of_le_length hs2]
+          apply ih _ (by simp only [List.length_drop]; omega) (noise.drop (s + 2)) _ rfl
+          intro k hk hfa
+          apply hnf (s + 2 + k) (by simp only [List.length_drop] at hk; omega)
+          unfold FalseAt at *
+          rw [← List.drop_append_of_le_length hs2, List.drop_drop] at hfa
+          exact hfa
+    · -- no marker starts in the noise
+      have := run_drop (b := noise ++ ps.flatten) (k := noise.length)
+        (fun j hj => hs.2 j (by omega)) (by omega)
+      rw [← this, List.drop_left' rfl, run_packets hp]
 
 /-! ### checksum gate -/
 
